@@ -19,3 +19,11 @@ Definition x_C15_asc_ok (v : val) : val :=
   vbool (aobs_wellformed o && ok_asc (dec_env (nthv 0 c)) (as_bytes (nthv 1 c)) (dec_aobs o)).
 Definition x_C15_asc_bytes (c : val) : val := enc_aobs (go_asc (as_bytes c)).
 Definition x_C15_asc_total_ok (v : val) : val := vbool (aobs_wellformed (nthv 1 v)).
+
+(* ALS with more than 255 channels: known finding, oracle without the uint8 guard *)
+Definition x_C15_asc_wide_emit (c : val) : val :=
+  let e := dec_env c in
+  if asc_wf_gen 65535 e && (255 <=? get e ka_als_chan) then VL [VB (asc_bytes e)] else VL [].
+Definition x_C15_asc_wide_ok (v : val) : val :=
+  let c := nthv 0 v in let o := nthv 1 v in
+  vbool (aobs_wellformed o && ok_asc_wide (dec_env (nthv 0 c)) (as_bytes (nthv 1 c)) (dec_aobs o)).
